@@ -234,3 +234,20 @@ package cache
 //@   allocates
 //@   ensures result != nil && fresh(result) && result.items != nil && result.bucket == bucket && !result.isAllInCache && unheld(result.itemsMu)
 //@   ensures forallv(k K, !contains(result.items, k))
+
+// GetMany: cached entries win, missing ids are read through, tombstones and ids the bucket does
+// not know are skipped; the cache keeps its representation invariant.
+//@ func (*ItemCache).GetMany
+//@   allocates
+//@   property C04 C08
+//@   safety -overflow -makelen
+//@   requires unheld(ic.itemsMu) && ic.items != nil
+//@   requires forallv(k K, contains(ic.items, k) ==> ic.items[k] != nil)
+//@   modifies ic.items
+//@   ensures unheld(ic.itemsMu)
+//@   ensures forallv(k K, contains(ic.items, k) ==> ic.items[k] != nil)
+//@   ensures forallv(k K, old(contains(ic.items, k)) ==> contains(ic.items, k) && ic.items[k] == old(ic.items[k]))
+//@   ensures result1 == nil ==> len(result0) <= len(ids)
+//@   loop 1 invariant rangeindex >= -1 && rangeindex < len(ids) && held(ic.itemsMu) && ic.items != nil && len(values) <= rangeindex + 1 && fresh(values)
+//@   loop 1 invariant forallv(k K, contains(ic.items, k) ==> ic.items[k] != nil)
+//@   loop 1 invariant forallv(k K, old(contains(ic.items, k)) ==> contains(ic.items, k) && ic.items[k] == old(ic.items[k]))
